@@ -18,9 +18,20 @@ def recv_attr(t):
     return None
 
 
+def helper_summary(fn):
+    """one-level callee summary for pose/attribute helpers: {'restores': attrs, 'overwrites': attrs} of attributes of objects reached
+    through the helper's parameters.  A helper *restores* attribute a if all its stores to a are self-slices / saved values."""
+    c = T1Client(fn, helpers=None)
+    rest = {ra[1] for ra in c.restores.values()}
+    plain = {ra[1] for n, ra in c.stores if id(n) not in c.restores}
+    return {"restores": rest - plain, "overwrites": plain}
+
+
 class T1Client(BaseClient):
-    def __init__(self, fn):
+    def __init__(self, fn, helpers=None):
+        """helpers: {function name: summary} for repo functions called by name (see helper_summary)"""
         self.fn = fn
+        self.helpers = helpers or {}
         self.loops = []
         self.saved = {}
         for n in ast.walk(fn):
@@ -46,9 +57,20 @@ class T1Client(BaseClient):
         # an attribute is a swap attribute only if it also has a non-restoring store in this function
         rest_attrs = {ra[1] for ra in self.restores.values()}
         plain = {ra[1] for n, ra in self.stores if id(n) not in self.restores}
+        self.helper_calls = {}
+        for n in ast.walk(fn):
+            if isinstance(n, ast.Call) and isinstance(n.func, ast.Name) and n.func.id in self.helpers and n.func.id != fn.name:
+                h = self.helpers[n.func.id]
+                if h["restores"] or h["overwrites"]:
+                    self.helper_calls[id(n)] = h
+                    rest_attrs |= h["restores"]
+                    plain |= h["overwrites"]
         self.swap_attrs = rest_attrs & plain
 
     def call_may_raise(self, call):
+        h = self.helper_calls.get(id(call))
+        if h and h["restores"] and not h["overwrites"]:
+            return False   # a pure restoring helper (only self-slices / saved values): assumed to complete
         return True
 
     def enter_loop(self, s):
@@ -68,9 +90,18 @@ class T1Client(BaseClient):
         for n in ast.walk(loop):
             if id(n) in self.restores and self.restores[id(n)][1] == attr:
                 return True
+            if id(n) in self.helper_calls and attr in self.helper_calls[id(n)]["restores"]:
+                return True
         return False
 
     def transfer(self, s, S):
+        for c in ast.walk(s):
+            h = self.helper_calls.get(id(c))
+            if h:
+                for a in h["overwrites"] & self.swap_attrs:
+                    S = S | {("tmp", a, self.loops[-1] if self.loops else None)}
+                for a in h["restores"] & self.swap_attrs:
+                    S = frozenset(f for f in S if f[1] != a)
         if isinstance(s, ast.Assign):
             for t in s.targets:
                 ra = recv_attr(t)
@@ -82,9 +113,9 @@ class T1Client(BaseClient):
         return S
 
 
-def analyse(fn):
+def analyse(fn, helpers=None):
     """-> None if no swap instance, else dict(attrs, exits, bad=[(kind, attrs, node)], stmts)"""
-    c = T1Client(fn)
+    c = T1Client(fn, helpers)
     if not c.swap_attrs:
         return None
     exits, n_stmts = function_exits(fn, c)
@@ -98,4 +129,19 @@ def analyse(fn):
             bad.append((k, sorted({a for _, a, _ in St}), n))
     return {"attrs": sorted(c.swap_attrs), "exits": len(exits), "bad": bad, "stmts": n_stmts,
             "restore_stmts": [n for n, ra in c.stores if id(n) in c.restores],
-            "store_stmts": [n for n, ra in c.stores if id(n) not in c.restores and ra[1] in c.swap_attrs]}
+            "store_stmts": [n for n, ra in c.stores if id(n) not in c.restores and ra[1] in c.swap_attrs],
+            "helper_calls": len(c.helper_calls)}
+
+
+def repo_helpers(repo):
+    """summaries of all module-level repo functions that overwrite or restore attributes of their arguments"""
+    out = {}
+    for m in repo.mods.values():
+        for name, fn in m.funcs.items():
+            try:
+                h = helper_summary(fn)
+            except RecursionError:
+                continue
+            if h["restores"] or h["overwrites"]:
+                out[name] = h
+    return out
